@@ -36,6 +36,10 @@ def main():
                 res["stale"].append(sid)
                 print(f"{sid}: STALE (patch no longer applies)", flush=True)
                 continue
+            rcd, newdiff = sh("git -C /repo diff --cached")
+            if newdiff.strip():
+                open(d + "patch.diff", "w").write(newdiff)  # keep the stored patch applicable to the current base
+                print(f"{sid}: stored patch rebased onto the current /repo head", flush=True)
             sh("git -C /repo reset -q")  # keep the working tree change, unstage
         try:
             rcc, oc = sh(f"./check {prop}", cwd=VERIF)
